@@ -110,7 +110,7 @@ def gen_desc(rng, with_par):
                 desc['stages'].append(st)
                 a = b
         if with_par:
-            par = pargen.gen_par_stage(rng, backends=('t',), max_extra_b=1)
+            par = pargen.gen_par_stage(rng, backends=('t',), max_extra_b=1, catch_p=0.25)
             b = pargen.abs_apply(a, par)
             if b is None:
                 continue
